@@ -18,9 +18,10 @@ HERE = os.path.dirname(os.path.abspath(__file__))
 class Adapter:
     case_timeout = 120
 
-    def __init__(self, langs=None, hashseeds=(0, 1, 2), **kw):
+    def __init__(self, langs=None, hashseeds=(0, 1, 2), toks=None, **kw):
         self.langs = langs or {}
         self.hashseeds = hashseeds
+        self.toks = toks or {}
 
     def on_timeout(self, case):
         return {'steps': 1, 'div': [{'kind': 'timeout', 'action': 'Generate', 'component': 'timeout', 'features': [],
@@ -80,8 +81,17 @@ class Adapter:
         m.save_to_file(mj)
         m.save_to_file(my)
         runs = []
+        paths = [(mar, mj, 'api'), (mar, my, 'wrapper'), (mar, mj, 'wrapper')]
+        mal = None
+        if isinstance(lang, str) and lang in self.toks:
+            # the same language as MAL text (printed by the specification's Tok), compiled by the toolbox itself
+            from harness.replay_syntax import render
+            mal = os.path.join(d, 'l-%d.mal' % os.getpid())
+            with open(mal, 'w', encoding='utf-8') as f:
+                f.write(render(self.toks[lang]) + '\n')
+            paths.append((mal, mj, 'wrapper'))
         for hs in self.hashseeds:
-            for (lf, mf, mode) in ((mar, mj, 'api'), (mar, my, 'wrapper'), (mar, mj, 'wrapper')):
+            for (lf, mf, mode) in paths:
                 env = dict(os.environ, PYTHONHASHSEED=str(hs), VERIF_REPO=os.environ.get('VERIF_REPO', '/repo'))
                 p = subprocess.run([sys.executable, os.path.join(HERE, 'gen_once.py'), lf, mf, mode], cwd=d, env=env,
                                    stdout=subprocess.PIPE, stderr=subprocess.PIPE, text=True, timeout=100)
@@ -89,9 +99,9 @@ class Adapter:
                 if p.returncode != 0:
                     div('fresh_process_failed', {'hashseed': hs, 'mode': mode, 'stderr': p.stderr[-400:]})
                     break
-                runs.append(((hs, mode, os.path.basename(mf)), p.stdout))
-        for f in (mar, mj, my):
-            if os.path.exists(f):
+                runs.append(((hs, mode, os.path.basename(lf).split('.')[-1] + '+' + os.path.basename(mf).split('.')[-1]), p.stdout))
+        for f in (mar, mj, my, mal):
+            if f and os.path.exists(f):
                 os.unlink(f)
         for key, out in runs:
             if out != s1:
